@@ -64,6 +64,7 @@ type Spec struct {
 	NoopPkgs      []string            `json:"noop_pkgs"`
 	FuncStubs     []FuncStub          `json:"func_stubs"` // see natives_trust1.go
 	MergeFuncs    []string            `json:"merge_funcs"` // see merge.go
+	TermOpts      []string            `json:"term_opts"` // optional term rewrites: linsum, boundlemmas
 	Level         string              `json:"level"`
 	// SrcRewrite: call-site stubs. Textual substitutions applied to the *current* repo source of the
 	// listed files, used identically by the interpreter and by native runs (so both sides see the same
@@ -344,6 +345,7 @@ func cmdCheck(args []string) int {
 	if !ok {
 		fatal(2, "spec has no tier %s", *tier)
 	}
+	setTermOpts(spec.TermOpts)
 	fillDefaults(&ts)
 
 	eng, err := loadEngine(&spec)
